@@ -179,6 +179,11 @@ fn build_extraction_doc(r: &mut Rng, enc_name: &str, rep: &[char]) -> Option<(Do
         return None;
     }
     let gen_text = |r: &mut Rng| -> String {
+        // now and then parentheses nested around the depth up to which the writer leaves them unescaped
+        if r.chance(1, 30) && rep.contains(&'(') && rep.contains(&')') {
+            let depth = *r.pick(&[1usize, 2, 50, 98, 99, 100, 101, 102, 150]);
+            return format!("{}x{}", "(".repeat(depth), ")".repeat(depth));
+        }
         loop {
             let n = 1 + r.usize_below(20);
             let s: String = (0..n).map(|_| *r.pick(rep)).collect();
